@@ -5,6 +5,7 @@ from harness import compart
 from harness.kcommon import c_elem
 
 IN_COQ = ('SIR', 'SIS', 'SIRS', 'SEIR', 'SIR_FixedRecovery', 'SIS_FixedRecovery', 'Opinion', 'Vaccinate')
+IN_COQ_V = ('SIvR',)
 
 
 def hkind(model, fn, code, sp, pv, kpost):
@@ -117,3 +118,88 @@ def to_coq(case, obs):
         L.lst(rands, L.q), L.lst(obs['lns'], L.q), L.lst([max(0, d) for d in obs['draws']], L.nat),
         L.lst(handlers), L.lst(taps), L.lst(final_comp, L.zpair), L.lst(final_loci), L.lst(occ), L.lst(hit), L.lst(counts),
         L.lst(observations), L.q(obs['time']), L.nat(obs['events']), L.nat(obs.get('steps') or 0))
+
+
+def to_coq_any(case, obs):
+    """C07's tie: base models as CBase, SIvR as CVacc"""
+    if case['model'] in IN_COQ_V:
+        t = to_coq_sivr(case, obs)
+        return None if t is None else '(CVacc %s)' % t
+    t = to_coq(case, obs)
+    return None if t is None else '(CBase %s)' % t
+
+
+def to_coq_sivr(case, obs):
+    import epydemic as ep
+    if obs.get('skipped') or case.get('seq'):
+        return None
+    sp = compart.spec('SIvR')
+    pv = case['pv']
+    ok = obs['exception'] is None and obs['time'] is not None and bool(obs['snaps'])
+    if not ok:
+        return ('{| v_model := {| vm_specs := []; vm_events := []; vm_plain := 0 |}; v_nodes := []; v_edges := []; v_init := []; v_maxtime := 0; v_sync := false; '
+                'v_vacc := []; v_gate := []; v_rands := []; v_lns := []; v_draws := []; vo_handlers := []; vo_taps := []; vo_final_comp := []; vo_final_loci := []; '
+                'vo_occ := []; vo_counts := []; vo_gate_used := 0; vo_time := 0; vo_events := 0; vo_steps := 0; vo_ok := false |}')
+    names = sorted(set(sp['comps']))
+    code = {c: i + 1 for i, c in enumerate(names)}
+    specs = []
+    plain = []
+    for i, ls in enumerate(obs['loci_specs']):
+        if ls[1] == 'node':
+            specs.append('(NodeLocus %s)' % L.z(code[ls[2]]))
+        elif ls[1] == 'edge':
+            specs.append('(EdgeLocus %s %s)' % (L.z(code[ls[2]]), L.z(code[ls[3]])))
+        elif ls[1] == 'plain':
+            plain.append(i)
+        else:
+            return None
+    if plain != list(range(len(specs), len(obs['loci_specs']))) or len(plain) != 2:
+        return None       # the model expects the two plain loci after the tracked ones
+    lname = [ls[0] for ls in obs['loci_specs']]
+    undec = [n.split('@')[0] for n in lname]
+    iN = undec.index(ep.SIvR.INFECTED_N)
+    iV = undec.index(ep.SIvR.INFECTED_V)
+    regs = obs['registration'].get(0, [])
+    regs = [r for r in regs if r['kind'] == 'elem'] + [r for r in regs if r['kind'] != 'elem']
+    events = []
+    for r in regs:
+        if r['fn'] == 'infect':
+            k = '(VInfect %s %s %s %s %s)' % (L.z(code[ep.SIR.INFECTED]), L.q(pv['eff']), L.q(pv['off']), L.nat(iN), L.nat(iV))
+        elif r['fn'] == 'remove':
+            k = '(VRemove %s %s %s)' % (L.z(code[ep.SIR.REMOVED]), L.nat(iN), L.nat(iV))
+        else:
+            return None
+        events.append('{| ve_elem := %s; ve_locus := %s; ve_p := %s; ve_kind := %s |}' % (L.b(r['kind'] == 'elem'), L.nat(r['li']), L.q(r['p']), k))
+    vm = '{| vm_specs := %s; vm_events := %s; vm_plain := %s |}' % (L.lst(specs), L.lst(events), L.nat(len(plain)))
+    s0 = obs['snaps'][0]
+    g = compart.make_graph(case['graph'])
+    nodes = list(g.nodes())
+    edges = list(g.edges())
+    init = [(n, code[s0['comps'][n]]) for n in nodes]
+    allr = obs['rands']
+    gp = set(obs['gate_positions'])
+    rands = [v for i, v in enumerate(allr) if i >= obs['started_rand'] and i not in gp]
+    gate = [allr[i] for i in obs['gate_positions']]
+    key = {(r['fn'], r['li']): j for j, r in enumerate(regs)}
+    handlers = ['(%s, %s, %s, %s)' % (L.nat(key[(en['fn'], en['li'])]), L.q(en['t']), c_elem(en['e']), L.b(en['member']))
+                for en in obs['entries'] if not en['posted'] and en['member'] is not None]
+    taps = ['(%s, %s, %s, %s)' % (L.q(s['t']), L.nat(max(0, s['pi'])), L.b(bool(s.get('posted'))), c_elem(s['e'] if s['e'] is not None else 0)) for s in obs['snaps'][1:]]
+    fin = obs['final']
+    final_comp = [(n, code[c]) for n, c in fin['comps'].items()]
+    final_loci = [L.lst(fin['loci'][nm], c_elem) for nm in lname]
+    occ_key = 'occupied' if obs['inst'] is None else 'occupied@' + obs['inst']
+    occ = ['(%s, %s, %s)' % (L.z(a), L.z(b), L.q(d.get('tOccupied'))) for a, b, d in fin['edges'] if d.get(occ_key)]
+    counts = []
+    for c in sp['comps']:
+        got = obs['results'].get(c)
+        if got is None and obs['inst'] is not None:
+            got = obs['results'].get(c + '@' + obs['inst'])
+        counts.append('(%s, %s)' % (L.z(code[c]), L.nat(got if got is not None else 4999)))
+    vacc = ['(%s, %s)' % (L.z(n), L.q(0.0)) for n in case.get('vacc', [])]
+    return ('{| v_model := %s; v_nodes := %s; v_edges := %s; v_init := %s; v_maxtime := %s; v_sync := %s; v_vacc := %s; v_gate := %s; '
+            'v_rands := %s; v_lns := %s; v_draws := %s; vo_handlers := %s; vo_taps := %s; vo_final_comp := %s; vo_final_loci := %s; vo_occ := %s; '
+            'vo_counts := %s; vo_gate_used := %s; vo_time := %s; vo_events := %s; vo_steps := %s; vo_ok := true |}') % (
+        vm, L.lst(nodes, L.z), L.lst(edges, L.zpair), L.lst(init, L.zpair), L.q(case['maxtime']), L.b(case['dynamics'] == 'synchronous'),
+        L.lst(vacc), L.lst(gate, L.q), L.lst(rands, L.q), L.lst(obs['lns'], L.q), L.lst([max(0, d) for d in obs['draws']], L.nat),
+        L.lst(handlers), L.lst(taps), L.lst(final_comp, L.zpair), L.lst(final_loci), L.lst(occ), L.lst(counts), L.nat(len(gate)),
+        L.q(obs['time']), L.nat(obs['events']), L.nat(obs.get('steps') or 0))
